@@ -7,10 +7,10 @@ import (
 	"verif/harness/internal/pdfgen"
 )
 
-// scaleProbes are fixed large inputs of the thorough tier. The seeded mutators keep nesting
-// depths small enough that one case costs milliseconds; whether the time clause ("proportional to
-// the input") holds at the top of the size range is asked once per structure here, one entry
-// point each (a violation costs 20 s + 40 s CPU per 256 KB, so these are few).
+// scaleProbes are fixed large inputs run in both tiers. The seeded mutators keep inputs (and so
+// nesting depths) around 256 KB, where recursion proportional to the input still fits a 64 MB
+// stack; whether recursion and time stay bounded at the top of the size range (1 - 3.5 MB) is asked
+// once per structure here, one entry point each.
 func scaleProbes(firstID int) []*genCase {
 	var out []*genCase
 	add := func(kind, desc, entry string, in []byte) {
